@@ -13,6 +13,13 @@ def _known(repo):
             + 'static const char* const knownFieldNames[] = {%s};\n#define knownFieldCount KNOWN_COUNT\n' % ', '.join('"%s"' % n for n in names)), len(names)
 
 
+def _replay(run, inputs, rp, repo, verif):
+    import replay
+    exe = replay.build('topic', ['src/lib/ebus/stringhelper.cpp', 'src/lib/ebus/filereader.cpp', 'src/lib/ebus/message.cpp', 'src/lib/ebus/data.cpp', 'src/lib/ebus/datatype.cpp', 'src/lib/ebus/symbol.cpp',
+                                 'src/lib/ebus/result.cpp', 'src/lib/ebus/contrib/contrib.cpp', 'src/lib/ebus/contrib/tem.cpp', 'src/lib/utils/log.cpp', 'src/lib/utils/clock.cpp'], repo, verif)
+    return replay.run(exe, [run['id']])
+
+
 # StringReplacer::get(values, untilFirstEmpty, onlyAlphanum): ostringstream -> string value model; the map of values is indexed by the known field index
 # stored in the template part (name <-> index consistency is makeField's, not extracted); loop over the parts vector by index
 _GET = [(r'ostringstream ret;', 'vstr ret = vstr_new();', 1),
@@ -62,6 +69,7 @@ _PARSE = [(r'm_parts\.clear\(\);', 'm_parts.n = 0;', 1),
           (r'\bit\.second\b', 'it->second', (2, 8))]
 
 UNIT = dict(
+    replay=_replay,
     trusted=['std::string / ostringstream are bounded value models (capacity per run, stated as bound); the parts vector is a fixed-capacity array; the values map is indexed by the known field index of a part (the name/index consistency established by StringReplacer::makeField is assumed)'],
     generated=[_known],
     cfg=dict(
